@@ -317,12 +317,15 @@ func TestSub_partition(t *testing.T) {
 // reject: unknown molecule types, every single letter outside the type's alphabet at every
 // position of short valid strings, double-stranded proteins.
 func TestSub_reject(t *testing.T) {
-	space := "11 unknown type strings; every byte 0x00..0x7f that is not white space and 5 non-ASCII runes outside the alphabet inserted at every position of 3 short valid strings per type x 4 flag pairs; double-stranded proteins over all protein strings of length 0..2"
+	space := "11 unknown type strings x 9 sequences (the empty one, one letter, lower case, long, letters of no alphabet among them) x 4 flag pairs; every byte 0x00..0x7f that is not white space and 5 non-ASCII runes outside the alphabet inserted at every position of 3 short valid strings per type x 4 flag pairs; double-stranded proteins over all protein strings of length 0..2"
 	vk.RunEnum(t, subReject, space, true, func(yield func(Case) bool) {
 		for _, typ := range []string{"", "XNA", "TNA", "LIPID", "GLYCAN", "42", "?", "unknown", "DNA+PROTEIN", "\x00", "nucleic acid or protein"} {
-			for _, fp := range flagPairs {
-				if !yield(Case{Seq: vk.SeqSpec{Lit: "ACGT"}, Type: typ, Circ: fp[0], DS: fp[1], Reject: true}) {
-					return
+			// whatever the sequence: a usual one, the empty one, one letter, lower case, a long one, letters of no alphabet
+			for _, seq := range []string{"ACGT", "", "A", "M", "acgu", "MKV*", strings.Repeat("ACGT", 300), "0", "??"} {
+				for _, fp := range flagPairs {
+					if !yield(Case{Seq: vk.SeqSpec{Lit: seq}, Type: typ, Circ: fp[0], DS: fp[1], Reject: true}) {
+						return
+					}
 				}
 			}
 		}
